@@ -143,7 +143,7 @@ func (f *Function) Eval(s *Scope, depth int) (result Object) {
 		}
 		v := s.Eval(arg, d2)
 		if vs, ok := v.(Values); ok && !skip {
-			v = vs[0]
+			v = vs.First()
 		}
 		args[i] = v
 	}
